@@ -24,9 +24,16 @@ ASSUMPTIONS = [
     '(which commute in exact arithmetic)',
     'PyWavelets filter banks (dwt/idwt numerics) are outside the model; only their coefficient lengths are modelled',
     'cos/sin at Q are a 64-bit fixed-point Taylor evaluation (C18/CisQ.v, error < 1e-17, compared with libm on every run)']
-TRUSTED = ['C18/CisQ.v as an approximation of exp(i pi a), pi and sqrt(2 pi) at Q',
+TRUSTED = ['translate/ft_formulas.py (Python ast -> Gallina: rmin/rmax/fmin/fmax case analyses, parity and half-complex '
+           'shape rules, phase exponents, kernel, back-end dispatch + normalisation of the _call_numpy methods), fail-closed',
+           'C18/CisQ.v as an approximation of exp(i pi a), pi and sqrt(2 pi) at Q',
            'NumPy broadcasting in fast_1d_tensor_mult modelled by index arithmetic (validated by the correspondence)',
            'np.fft / pyfftw / PyWavelets numerics (external; compared, not proved)']
+
+
+def translate():
+    from translate import ft_formulas
+    return {'Gen/FtFormulas.v': ft_formulas.translate()}
 
 
 # ------------------------------------------------- variant switches (measured)
